@@ -173,10 +173,12 @@ def Good {E : Type} (c : Cfg E) (s : Sel E) : Bool :=
   (match s.limit with | some e => c.isInt e | none => true) &&
   (match s.offset with | some e => c.isInt e | none => true)
 
-/-! ### set-operation chains (MindsDB grammar)
-`union : select OP [ALL] select | union OP [ALL] select`, `select : ( select ) | ( union )`
-(the parenthesised forms return the inner node unchanged: no `parentheses` flag is stored),
-`CombiningQuery.get_string = left \n OP [ALL] \n right`. -/
+/-! ### set operations (MindsDB grammar, since /repo bce2da8)
+`union : select OP [ALL] select | union OP [ALL] select`, `select : ( select ) | ( union )`:
+`( select )` returns the Select unchanged, `( union )` returns the set operation with `parentheses = True`;
+`CombiningQuery.to_string = maybe_add_parentheses(left \n OP [ALL] \n right)`.
+The parser is a stack machine over the token list: one frame per open parenthesis, holding the value built so far
+and the pending operator (this is what the LALR parser does with the two `union` rules: left-nested chains). -/
 
 inductive SetOp where
   | union | intersect | except
@@ -184,45 +186,85 @@ inductive SetOp where
 
 inductive Q where
   | sel (n : Nat)
-  | comb (op : SetOp) (unique : Bool) (l r : Q)
+  | comb (op : SetOp) (unique : Bool) (paren : Bool) (l r : Q)
   deriving DecidableEq, Repr
 
-/-- token stream after the parenthesised operands have been reduced: `grp q` is `( union )` -/
 inductive QTok where
   | sel (n : Nat)
-  | grp (q : Q)
   | op (o : SetOp) (unique : Bool)
+  | lp
+  | rp
   deriving DecidableEq, Repr
 
-def operand : QTok → Option Q
-  | .sel n => some (.sel n)
-  | .grp q => some q
-  | .op _ _ => none
+/-- `( select )` / `( union )` -/
+def markParen : Q → Q
+  | .sel n => .sel n
+  | .comb o u _ l r => .comb o u true l r
 
-/-- `union OP select` repeated: left-nested -/
-def chain : Q → List QTok → Option Q
-  | acc, [] => some acc
-  | acc, .op o u :: t :: rest => match operand t with
-    | some r => chain (.comb o u acc r) rest
-    | none => none
+structure Frame where
+  acc : Option Q
+  pend : Option (SetOp × Bool)
+  deriving DecidableEq, Repr
+
+def Frame.empty : Frame := ⟨none, none⟩
+
+/-- an operand (a `select`) arrives in a frame -/
+def feed (f : Frame) (v : Q) : Option Frame :=
+  match f.acc, f.pend with
+  | none, none => some ⟨some v, none⟩
+  | some a, some (o, u) => some ⟨some (.comb o u false a v), none⟩
   | _, _ => none
 
-def parseQ : List QTok → Option Q
-  | t :: rest => match operand t with
-    | some l => chain l rest
-    | none => none
-  | [] => none
+def stepQ : List Frame → QTok → Option (List Frame)
+  | f :: st, .sel n => (feed f (.sel n)).map (· :: st)
+  | st, .lp => some (Frame.empty :: st)
+  | ⟨some q, none⟩ :: f :: st, .rp => (feed f (markParen q)).map (· :: st)
+  | ⟨some a, none⟩ :: st, .op o u => some (⟨some a, some (o, u)⟩ :: st)
+  | _, _ => none
 
-/-- `CombiningQuery.get_string`: both operands printed by `str()`; parser-built nodes never carry
-`parentheses = True` here, so no parenthesis is ever printed -/
+def runQ : List Frame → List QTok → Option (List Frame)
+  | st, [] => some st
+  | st, t :: ts => match stepQ st t with
+    | some st' => runQ st' ts
+    | none => none
+
+def finishQ : List Frame → Option Q
+  | [⟨some q, none⟩] => some q
+  | _ => none
+
+def parseQ (toks : List QTok) : Option Q :=
+  match runQ [Frame.empty] toks with
+  | some st => finishQ st
+  | none => none
+
+/-- the text inside the node's own parentheses -/
+def printBody : Q → List QTok
+  | .sel n => [.sel n]
+  | .comb o u _ l r =>
+    (match l with
+      | .sel n => [.sel n]
+      | .comb _ _ true _ _ => .lp :: printBody l ++ [.rp]
+      | .comb _ _ false _ _ => printBody l) ++
+    (.op o u ::
+      (match r with
+        | .sel n => [.sel n]
+        | .comb _ _ true _ _ => .lp :: printBody r ++ [.rp]
+        | .comb _ _ false _ _ => printBody r))
+
+/-- `to_string` -/
 def printQ : Q → List QTok
   | .sel n => [.sel n]
-  | .comb o u l r => printQ l ++ (.op o u :: printQ r)
+  | .comb o u true l r => .lp :: printBody (.comb o u true l r) ++ [.rp]
+  | .comb o u false l r => printBody (.comb o u false l r)
 
-/-- right operands are plain selects -/
-def leftNested : Q → Bool
+/-- a `select` operand: a plain SELECT or a parenthesised set operation -/
+def isOperand : Q → Bool
   | .sel _ => true
-  | .comb _ _ l (.sel _) => leftNested l
-  | .comb _ _ _ _ => false
+  | .comb _ _ p _ _ => p
+
+/-- what the rules can build: the right operand of every set operation is a `select` -/
+def wfQ : Q → Bool
+  | .sel _ => true
+  | .comb _ _ _ l r => wfQ l && wfQ r && isOperand r
 
 end MindsVerif.SelectSkel
